@@ -125,6 +125,36 @@ if mode == 'faults':
                     'exact': (after == expected) if expected is not None else None, 'after_len': None if after is None else len(after), 'prior_len': None})
         if os.path.exists(path):
             os.remove(path)
+    # the same score object written again to the same path after something ELSE changed the file (another tool, a truncation, a restore), after the
+    # score itself was changed and changed back, and to a second path: when write() returns the file holds declaration + to_string()
+    for ri, tamper in enumerate([b'<other/>\n', b'', b'x' * 5000, None, 'edit-and-revert', 'second-path']):
+        s, _ = make_score()
+        path = os.path.join(d, 'r_%d.xml' % ri)
+        label = 'rewrite:%r' % (tamper if not isinstance(tamper, bytes) else tamper[:12])
+        try:
+            s.write(path)
+            if isinstance(tamper, bytes):
+                with open(path, 'wb') as f:
+                    f.write(tamper)
+            elif tamper is None:
+                os.remove(path)
+            elif tamper == 'edit-and-revert':
+                pn = s.get_children()[0].get_children()[0].get_children()[0]
+                old_v = pn.value_
+                pn.value_ = 'changed'
+                s.write(path)
+                pn.value_ = old_v
+            elif tamper == 'second-path':
+                path = os.path.join(d, 'r_%d_b.xml' % ri)
+            expected = (DECL + s.to_string()).encode('utf-8')
+            s.write(path)
+            after = open(path, 'rb').read() if os.path.exists(path) else None
+            out.append({'break_at': label, 'prior': 'tampered', 'raised': None, 'to_string_raises': None, 'untouched': False, 'exact': after == expected,
+                        'after_len': None if after is None else len(after), 'prior_len': None})
+        except Exception as ex:
+            out.append({'break_at': label, 'prior': 'tampered', 'raised': type(ex).__name__, 'to_string_raises': None, 'untouched': False, 'exact': None, 'after_len': None, 'prior_len': None})
+        for fn in os.listdir(d):
+            os.remove(os.path.join(d, fn))
     os.rmdir(d)
     res['faults'] = out
 else:
